@@ -11,6 +11,7 @@ package main
 
 import (
 	"fmt"
+	"go/constant"
 	"go/token"
 	"go/types"
 
@@ -51,6 +52,69 @@ type pbAnalysis struct {
 	over int
 	// site of the first overflow found
 	overAt string
+	// recording pass (after the fixpoint): which depths each function is
+	// entered with, and the depths at calls of watched functions
+	rec      bool
+	watch    map[*ssa.Function]bool
+	ctx      map[*ssa.Function]uint32
+	watchHit map[*ssa.Call]uint32
+	callHit  map[*ssa.Call]uint32 // static calls into scope functions: depths at the call
+	// freshEntry: entry points are entered at depth 0 only
+	freshEntry bool
+}
+
+// contexts propagates the reachable entry depths from the entry points (any
+// order, starting from an empty ring) and records the depths at watched calls.
+func (a *pbAnalysis) contexts(entries []*ssa.Function, watch map[*ssa.Function]bool) map[*ssa.Call]uint32 {
+	a.rec, a.watch = true, watch
+	a.ctx = map[*ssa.Function]uint32{}
+	a.watchHit = map[*ssa.Call]uint32{}
+	// depths between two entry-point calls
+	D := bitsOf(0)
+	for changed := true; changed; {
+		changed = false
+		for _, f := range entries {
+			if s := a.sums[f]; s != nil {
+				for d := 0; d <= a.over; d++ {
+					if D&(1<<uint(d)) != 0 {
+						if nd := D | s.ok[d] | s.err[d]; nd != D {
+							D, changed = nd, true
+						}
+					}
+				}
+			}
+		}
+	}
+	if a.freshEntry {
+		D = bitsOf(0) // every entry point starts on a parser with nothing pushed back
+	}
+	for _, f := range entries {
+		a.ctx[f] |= D
+	}
+	for round := 0; round < 40; round++ {
+		before := map[*ssa.Function]uint32{}
+		for f, b := range a.ctx {
+			before[f] = b
+		}
+		for f, bits := range before {
+			for d := 0; d <= a.over; d++ {
+				if bits&(1<<uint(d)) != 0 {
+					a.analyse(f, d)
+				}
+			}
+		}
+		same := len(before) == len(a.ctx)
+		for f, b := range a.ctx {
+			if before[f] != b {
+				same = false
+			}
+		}
+		if same {
+			break
+		}
+	}
+	a.rec = false
+	return a.watchHit
 }
 
 func newPB(spec *pbSpec) *pbAnalysis {
@@ -182,7 +246,7 @@ func (a *pbAnalysis) callees(c *ssa.CallCommon) (fs []*ssa.Function, delta int, 
 		return nil, 0, true
 	}
 	// dynamic call: every in-scope function of that signature
-	sig := c.Signature().String()
+	sig := sigKey(c.Signature())
 	return a.spec.bySig[sig], 0, len(a.spec.bySig[sig]) == 0
 }
 
@@ -193,6 +257,16 @@ func (a *pbAnalysis) analyse(f *ssa.Function, entry int) bool {
 		in[i] = pbState{}
 	}
 	in[0].add("", bitsOf(entry))
+	edge := map[[2]int]pbState{} // what flowed along each CFG edge
+	flow := func(from, to int, src pbState) {
+		k := [2]int{from, to}
+		if edge[k] == nil {
+			edge[k] = pbState{}
+		}
+		for tag, bits := range src {
+			edge[k].add(tag, bits)
+		}
+	}
 	maxd := entry
 	var okBits, errBits uint32
 	work := []int{0}
@@ -219,6 +293,13 @@ func (a *pbAnalysis) analyse(f *ssa.Function, entry int) bool {
 			}
 			if common == nil {
 				continue
+			}
+			if a.rec && callv != nil && a.watch[common.StaticCallee()] {
+				var bitsNow uint32
+				for _, bits := range st {
+					bitsNow |= bits
+				}
+				a.watchHit[callv] |= bitsNow
 			}
 			fs, delta, opaque := a.callees(common)
 			if opaque {
@@ -258,6 +339,17 @@ func (a *pbAnalysis) analyse(f *ssa.Function, entry int) bool {
 			var allBits uint32
 			for _, bits := range st {
 				allBits |= bits
+			}
+			if a.rec {
+				for _, callee := range fs {
+					a.ctx[callee] |= allBits
+				}
+				if callv != nil && len(fs) == 1 {
+					if a.callHit == nil {
+						a.callHit = map[*ssa.Call]uint32{}
+					}
+					a.callHit[callv] |= allBits
+				}
 			}
 			ns := pbState{}
 			for d := 0; d <= a.over; d++ {
@@ -322,11 +414,36 @@ func (a *pbAnalysis) analyse(f *ssa.Function, entry int) bool {
 					}
 				}
 			}
+			// `for more := true; more; { ... }`: the test is a loop variable whose
+			// value on the way in is the constant true, and the header holds
+			// nothing but that variable: what arrives from outside the loop cannot
+			// leave through the exit edge
+			if phi, ok := x.Cond.(*ssa.Phi); ok && phi.Block() == b && headerOnlyPhis(b) {
+				constTrue := -1
+				for i, e := range phi.Edges {
+					if k, ok := e.(*ssa.Const); ok && k.Value != nil && k.Value.Kind() == constant.Bool && constant.BoolVal(k.Value) {
+						constTrue = i
+					}
+				}
+				if constTrue >= 0 && len(b.Preds) >= 2 {
+					others := pbState{}
+					for i, pb := range b.Preds {
+						if i == constTrue {
+							continue
+						}
+						for tag, bits := range edge[[2]int{pb.Index, b.Index}] {
+							others.add(tag, bits)
+						}
+					}
+					fSt = others
+				}
+			}
 			for i, s := range b.Succs {
 				src := tSt
 				if i == 1 {
 					src = fSt
 				}
+				flow(b.Index, s.Index, src)
 				ch := false
 				for tag, bits := range src {
 					if in[s.Index].add(tag, bits) {
@@ -341,6 +458,7 @@ func (a *pbAnalysis) analyse(f *ssa.Function, entry int) bool {
 			continue
 		}
 		for _, s := range b.Succs {
+			flow(b.Index, s.Index, st)
 			ch := false
 			for tag, bits := range st {
 				// tags do not survive a join with other paths reliably; keep them (sound: both sides retained)
@@ -463,4 +581,39 @@ func sameOrSameLoad(a, b ssa.Value) bool {
 	ua, ok1 := a.(*ssa.UnOp)
 	ub, ok2 := b.(*ssa.UnOp)
 	return ok1 && ok2 && ua.Op == token.MUL && ub.Op == token.MUL && ua.X == ub.X
+}
+
+// sigKey identifies a function type by its parameter and result types only
+// (parameter names differ between a closure and the type of the variable it is
+// called through).
+func sigKey(sig *types.Signature) string {
+	k := "func("
+	for i := 0; i < sig.Params().Len(); i++ {
+		if i > 0 {
+			k += ","
+		}
+		k += sig.Params().At(i).Type().String()
+	}
+	k += ")("
+	for i := 0; i < sig.Results().Len(); i++ {
+		if i > 0 {
+			k += ","
+		}
+		k += sig.Results().At(i).Type().String()
+	}
+	if sig.Variadic() {
+		k += "..."
+	}
+	return k + ")"
+}
+
+func headerOnlyPhis(b *ssa.BasicBlock) bool {
+	for _, in := range b.Instrs[:len(b.Instrs)-1] {
+		switch in.(type) {
+		case *ssa.Phi, *ssa.DebugRef:
+		default:
+			return false
+		}
+	}
+	return true
 }
